@@ -51,14 +51,17 @@ def step_signatures(case, res, step, divs, shp):
         if not fp and state and not prim and not shp:
             fp = state[0].get("fastpath") and state[0].get("fastpath_leaf_empty")
         mstep = case["steps"][step]
-        if fp and o in ("ins", "app") and case["hint"] != "none":
+        errored = bool(err) or cls in ("panic", "failed_but_changed")
+        if err == "separator_key_already_exists":
+            # split_leaf is shared by insert / insert_if_not_exists / insert_append: one root cause, one signature
+            sig = "split_separator_already_in_parent"
+        elif cls == "failed_but_changed" and mstep.get("mayfail"):
+            sig = "unsplittable_leaf_split_loses_entries"
+        elif fp and not errored and o in ("ins", "app") and case["hint"] != "none":
+            # the fast path answers Ok; two code sites (try_fastpath_insert / try_append_fastpath)
             sig = "hint_fastpath_insert_into_empty_rightmost_leaf:%s" % o
-        elif err == "separator_key_already_exists":
-            sig = "split_separator_already_in_parent:%s" % o
         elif o == "upd" and cls == "error" and err.startswith("not_enough_free_space") and any(d["view"] == "get" and d.get("touched") and d["class"] == "missing" for d in divs):
             sig = "update_grow_error_loses_key"
-        elif cls == "failed_but_changed" and mstep.get("mayfail"):
-            sig = "unsplittable_leaf_split_loses_entries:%s" % o
         else:
             sig = "state:%s:%s:%s:%s" % (o, cls, err, failed)
         return [(sig, src)]
